@@ -217,6 +217,10 @@ def run(index, tier="quick", seed=0) -> Result:
     if nballs < 20:
         raise AnalysisError(f"only {nballs} ball properties enumerated (>= 20 confirmed)")
     from ..parallel import report as _copy1
+    from ..frame3 import check as _frame3
+    for cn_ in ("Polygon", "ConvexPolygon", "ConvexSpheropolygon"):
+        _frame3(res, index, cn_, ("minimal_bounding_circle", "minimal_centered_bounding_circle", "maximal_bounded_circle", "maximal_centered_bounded_circle",
+                                  "circumcircle", "incircle", "bounding_circle", "incircle_from_center", "circumcircle_radius", "incircle_radius"))
     _copy1(res, index, lambda f: f['top'] in ('circumsphere', 'insphere', 'circumcircle', 'incircle', 'minimal_bounding_sphere', 'minimal_bounding_circle', 'minimal_centered_bounding_circle', 'maximal_centered_bounded_circle', 'minimal_centered_bounding_sphere', 'maximal_centered_bounded_sphere'))
     _undo(res, index)
     from ..dimscan import report_translation
